@@ -64,7 +64,7 @@ Lemma write_feat_gen ft g l0 rest :
   (aget k_type g = None -> aget k_type (fmeta ft) = None) ->
   write_feat ft = concat_opt (line_opts g l0 rest).
 Proof.
-  intros Eg Mg Hl Nm Ht. unfold write_feat. rewrite Eg, Hl.
+  intros Eg Mg Hl Nm Ht. unfold write_feat, write_feat_r. change (merged_gff_r random_id ft) with (merged_gff ft). rewrite Eg, Hl.
   assert (loc_meta g l0 = g) as E0 by (unfold loc_meta; rewrite Nm; reflexivity).
   rewrite E0. destruct (m_seqid _ Mg) as [E1 _]. destruct (m_type _ Mg) as [E3 C3].
   rewrite (qcol_ok _ _ E1), E3.
@@ -113,7 +113,7 @@ Proof.
   { unfold Nf. rewrite Ea. unfold asm, copy_attrs_in. cbn [fgff flocs fmeta getgff]. rewrite EA. repeat split.
     unfold stepM. f_equal. rewrite ET. destruct (ocol k_type g); reflexivity. }
   assert (merged_gff (Nf ft) = g1_of g) as Em.
-  { unfold merged_gff, getgff. rewrite Fg, Fm, Fl. rewrite CF1. fold (g1_of g).
+  { unfold merged_gff, merged_gff_r, getgff. rewrite Fg, Fm, Fl. rewrite CF1. fold (g1_of g).
     destruct (Nat.ltb 1 (length (l01 :: rest1))) eqn:L; [|reflexivity].
     assert (rest <> []) as NE by (intros E; subst rest; unfold rest1 in L; cbn in L; discriminate L).
     rewrite (aget_g1 g k_ID U), (Hid NE). reflexivity. }
@@ -153,7 +153,7 @@ Proof.
   { unfold Nf. rewrite Ea. unfold asm, copy_attrs_in. cbn [fgff flocs fmeta getgff]. rewrite EA. repeat split.
     unfold stepM. f_equal. rewrite ET. destruct (ocol k_type g); reflexivity. }
   split; [|exact Fl].
-  unfold merged_gff, getgff. rewrite Fg, Fm, Fl. rewrite CF1. fold (g1_of g).
+  unfold merged_gff, merged_gff_r, getgff. rewrite Fg, Fm, Fl. rewrite CF1. fold (g1_of g).
   destruct (Nat.ltb 1 (length (l01 :: rest1))) eqn:L; [|reflexivity].
   assert (rest <> []) as NE by (intros E; subst rest; unfold rest1 in L; cbn in L; discriminate L).
   rewrite (aget_g1 g k_ID U), (Hid NE). reflexivity.
@@ -253,3 +253,8 @@ Proof.
   pose proof Rf as [W [Nm [Hs Hp]]]. destruct (flocs f) as [|l0 rest] eqn:Hl; [discriminate Hs|].
   destruct (Nf_shape f l0 rest Rf Hl) as [_ Fl]. rewrite Fl. cbn [map]. f_equal. rewrite map_map. reflexivity.
 Qed.
+
+(* the aliases Feature.meta.name / id / score / evalue / seqid / phase / type after reading are the GFF attributes *)
+Theorem aliases_copied f p : In p copyattrs ->
+  aget (snd p) (fmeta (copy_attrs_in f)) = match aget (fst p) (getgff f) with Some v => Some v | None => aget (snd p) (fmeta f) end.
+Proof. intros Hin. unfold copy_attrs_in. cbn [fmeta]. apply (fold_m_in (getgff f) copyattrs (fmeta f) p copy_nodup Hin). Qed.
